@@ -13,7 +13,13 @@
         statuses = name=valuekind,...  (BuildValue kind number of every command that was built)
      -> FUEL | CYCLE | STUCK
    null_check <commands> <targets> <sources> <target>
-     -> OK n_valid n_invalid   how many recorded command / node values are valid in the world the clean build left *)
+     -> OK n_valid n_invalid   how many recorded command / node values are valid in the world the clean build left
+   valid <commands> <targets> <mutated nodes> <key> <stored value> <stats>
+     the isResultValid verdict of the model for a value read from the build database, in the world described by stats
+     key    = C<name hex> | N<name hex> | T<name hex>
+     value  = the BuildValue bytes (hex) as stored in rule_results.value
+     stats  = p1/dev:ino:mode:size:sec:nsec;p2/x;...   (x = missing; paths not listed are missing)
+     -> V | I | O (OverRead) | UNDECODABLE *)
 let split_list c s = if s = "" || s = "." then [] else String.split_on_char c s
 let tool_of = function "s" -> TShell | "p" -> TPhony | "m" -> TMkdir | _ -> TSymlink
 let cmd_of_string s = match String.split_on_char ':' s with
@@ -75,4 +81,27 @@ let () =
                | _ -> (match rule_valid d st.bs_world k v with Valid -> incr ok | _ -> incr bad)) st.bs_vals;
            Printf.sprintf "OK %d %d" !ok !bad
          | BFuel -> "FUEL" | BCycle -> "CYCLE" | BStuck -> "STUCK")
+      | _ -> "ERR args")
+
+let fi_of_stat s = match String.split_on_char ':' s with
+  | [a; b; c; d; e; f] -> Some { fi_device = n_of_dec a; fi_inode = n_of_dec b; fi_mode = n_of_dec c; fi_size = n_of_dec d;
+                                 fi_sec = n_of_dec e; fi_nsec = n_of_dec f; fi_checksum = List.init 32 (fun _ -> N0) }
+  | _ -> None
+let world_of_stats s =
+  let tbl = Hashtbl.create 32 in
+  List.iter (fun e -> match String.split_on_char '/' e with
+      | [p; st] -> (match fi_of_stat st with Some fi -> Hashtbl.replace tbl (bytes_of_hex p) fi | None -> ())
+      | _ -> ()) (split_list ';' s);
+  { w_fs = (fun q -> match Hashtbl.find_opt tbl q with Some fi -> Some ([], fi) | None -> None); w_clock = N0 }
+let key_of_string s =
+  let name = bytes_of_hex (String.sub s 1 (String.length s - 1)) in
+  match s.[0] with 'C' -> KC name | 'N' -> KN name | _ -> KT name
+let () =
+  register "valid" (function
+      | [cmds; targets; mutated; key; value; stats] ->
+        let d = desc_of cmds targets mutated in
+        (match dec_value (bytes_of_hex value) with
+         | None -> "UNDECODABLE"
+         | Some v -> (match rule_valid d (world_of_stats stats) (key_of_string key) v with
+             | Valid -> "V" | Invalid -> "I" | OverRead -> "O"))
       | _ -> "ERR args")
